@@ -16,6 +16,7 @@ import ProphyModel.Typing
 import ProphyModel.Copy
 import ProphyModel.Files
 import ProphyModel.Patch
+import ProphyModel.Accept
 open Lean Prophy Prophy.Driver
 
 structure DState where
@@ -272,6 +273,9 @@ def handle (st : DState) (j : Json) : Except String (DState × Json) := do
     match Patch.applyAll ms acts with
     | .ok r => pure (st, Json.mkObj [("members", Json.arr (r.map pmToJson).toArray)])
     | .error _ => pure (st, Json.mkObj [("error", true)])
+  | "accepts" =>
+    let ty ← getTy st j
+    pure (st, Json.mkObj [("front", Accept.front ty), ("pyrt", Accept.pyRt ty)])
   | "py_copy" =>
     let ty ← getTy st j
     let v ← valOfJson (← j.getObjVal? "v")
